@@ -15,7 +15,7 @@
 //!   ei <expr> <view> <view> `move || if c != 0 { Either::Left(a) } else { Either::Right(b) }`
 //!   sh <expr> <view> <view> `<Show when=.. fallback=..>`
 //!   for <expr> <n> <list>*n `<For each=move || lists[sel mod n] key=|k| *k children=|k| <li>{k}</li>>`
-//!   susp <view>             `<Suspense fallback="wait">` over a harness-controlled future   (implementation only)
+//!   susp <expr> <view>      `<Suspense fallback="wait">` over an `AsyncDerived` of the expression (resolves after one more poll), children `(value, view)`   (implementation only)
 //!   errb <expr> <view>      `<ErrorBoundary>` over `move || if e != 0 { Err } else { Ok(view) }` (implementation only)
 //! <attr>: as <name> <hex> | ad <name> <expr> | ac <name> <expr> | ay <name> <expr>
 pub mod gen;
@@ -49,7 +49,7 @@ pub enum ViewD {
     Either(Expr, Box<ViewD>, Box<ViewD>),
     Show(Expr, Box<ViewD>, Box<ViewD>),
     For(Expr, Vec<Vec<u32>>),
-    Susp(Box<ViewD>),
+    Susp(Expr, Box<ViewD>),
     Errb(Expr, Box<ViewD>),
 }
 
@@ -171,7 +171,7 @@ pub fn parse_view(t: &mut Toks) -> Option<ViewD> {
             }
             ViewD::For(sel, lists)
         }
-        "susp" => ViewD::Susp(Box::new(parse_view(t)?)),
+        "susp" => ViewD::Susp(parse_expr(t)?, Box::new(parse_view(t)?)),
         "errb" => ViewD::Errb(parse_expr(t)?, Box::new(parse_view(t)?)),
         _ => return None,
     })
@@ -211,7 +211,7 @@ pub fn show_view(v: &ViewD) -> String {
                 .collect();
             format!("for {} {} {}", show_expr(sel), lists.len(), ls.join(" "))
         }
-        ViewD::Susp(a) => format!("susp {}", show_view(a)),
+        ViewD::Susp(e, a) => format!("susp {} {}", show_expr(e), show_view(a)),
         ViewD::Errb(e, a) => format!("errb {} {}", show_expr(e), show_view(a)),
     }
 }
@@ -318,7 +318,10 @@ fn struct_guards(defs: &[Def], env: &[i64], v: &ViewD, out: &mut Vec<Guard>) {
             struct_guards(defs, env, if eval_pure(defs, env, c) != 0 { a } else { b }, out)
         }
         ViewD::For(sel, _) => out.push(Guard::Reads(reads_of(defs, sel))),
-        ViewD::Susp(a) => struct_guards(defs, env, a, out),
+        ViewD::Susp(e, a) => {
+            out.push(Guard::Reads(reads_of(defs, e)));
+            struct_guards(defs, env, a, out)
+        }
         ViewD::Errb(e, a) => {
             out.push(Guard::Reads(reads_of(defs, e)));
             struct_guards(defs, env, a, out)
@@ -376,13 +379,13 @@ pub fn ref_render(defs: &[Def], env: &[i64], v: &ViewD, path: &[Guard], out: &mu
             out.push(RefNode { kind: 'C', guards: p, kids: vec![] })
         }
         // implementation-only constructors are not covered by the untouched-nodes oracle
-        ViewD::Susp(_) | ViewD::Errb(..) => {}
+        ViewD::Susp(..) | ViewD::Errb(..) => {}
     }
 }
 
 pub fn has_impl_only(v: &ViewD) -> bool {
     match v {
-        ViewD::Susp(_) | ViewD::Errb(..) => true,
+        ViewD::Susp(..) | ViewD::Errb(..) => true,
         ViewD::Text(_) | ViewD::Unit | ViewD::DynText(_) | ViewD::For(..) => false,
         ViewD::Elem(_, _, k) => has_impl_only(k),
         ViewD::Seq(a, b) | ViewD::Either(_, a, b) | ViewD::Show(_, a, b) => has_impl_only(a) || has_impl_only(b),
